@@ -14,6 +14,7 @@ tspec forms:
   {'attr': tspec} / {'xmldata': tspec}       XmlAttribute / XmlData (complex fields only)
   optional keys on any of them: 'min_occurs' (0|1), 'nillable' (bool)
 """
+import re
 import datetime
 import decimal
 import uuid
@@ -683,10 +684,14 @@ def gen_value(rng, ir, t, depth=3, top=False, alphabet='xml', subclass_ok=False)
     nillable = t.get('nillable', True)
     if 'xmldata' in t and t['xmldata'].get('prim') not in ('Unicode',):
         top = True      # the text content of a simpleContent type cannot be absent unless it is a string
+    if 'xmldata' in t and t['xmldata'].get('prim') == 'Unicode':
+        f_ = t['xmldata'].get('facets') or {}
+        if ('values' in f_ and '' not in f_['values']) or f_.get('min_len', 0) > 0 or ('pattern' in f_ and re.fullmatch(f_['pattern'], '') is None):
+            top = True  # ... and a string only when the empty string is one of its values
     if 'attr' in t and t['attr'].get('min_occurs', 0) >= 1:
         top = True      # a required attribute
-    if 'seq' in t and t.get('min_occurs', 0) >= 2:
-        top = True      # "no value" is written as one nil element, which is fewer than the member has to occur
+    if 'seq' in t and t.get('min_occurs', 0) >= 1:
+        top = True      # "no value" of a repeated member is no element at all (or one nil element): fewer than the member has to occur
     req_attr_ = 'ref' in t and any('attr' in ft and ft['attr'].get('min_occurs', 0) >= 1 for _, ft in all_fields(ir, t['ref']))
     if req_attr_:
         top = True      # XSD wants the required attributes even on a nilled element: "no value" has no valid spelling for such a type
@@ -745,8 +750,9 @@ def gen_value(rng, ir, t, depth=3, top=False, alphabet='xml', subclass_ok=False)
         mn_ = t.get('min_occurs', 0)
         n = rng.choice([k for k in (0, 1, 2, 3, mx) if mn_ <= k <= mx])
         out = []
-        for _ in range(n):
-            v = gen_value(rng, ir, t['seq'], depth - 1, top=True, alphabet=alphabet, subclass_ok=subclass_ok)
+        for i_ in range(n):
+            # (the occurrences a member must have are produced even at the depth limit)
+            v = gen_value(rng, ir, t['seq'], max(depth - 1, 1) if i_ < mn_ else depth - 1, top=True, alphabet=alphabet, subclass_ok=subclass_ok)
             if v is None:
                 if len(out) < mn_:
                     return None if mn_ == 0 else (out + [out[0]] * (mn_ - len(out)) if out else None)
